@@ -119,7 +119,14 @@ PURE_METHODS = {"astype", "copy", "sum", "mean", "var", "std", "min", "max", "ar
                 "bit_length", "total_seconds", "timestamp", "date", "time", "weekday",
                 "union", "intersection", "difference", "issubset", "issuperset", "isdisjoint",
                 "copy", "fromkeys", "most_common", "elements", "subtract", "deg", "rad",
-                "hour", "wrap_at", "to_string", "decompose", "is_equivalent", "si", "cgs"}
+                "hour", "wrap_at", "to_string", "decompose", "is_equivalent", "si", "cgs",
+                # pathlib / importlib.resources path algebra (no file access)
+                "joinpath", "with_suffix", "with_name", "relative_to", "as_posix", "is_absolute",
+                "casefold", "partition", "rpartition", "splitlines", "capitalize", "swapcase",
+                "expandtabs", "center", "removeprefix", "removesuffix", "isalpha", "isalnum",
+                "isspace", "isnumeric", "isupper", "islower", "bit_count", "conjugate",
+                "ptp", "argsort", "cumprod", "diagonal", "trace", "compress", "choose", "newbyteorder",
+                "isoweekday", "isocalendar", "toordinal", "utcoffset", "tzname", "dst", "timetuple"}
 
 
 def np_short(qual: str):
